@@ -751,3 +751,120 @@ Definition failover_outcome (rd : bool) (p : fo_primary) (fbs : list fo_fallback
       end
     end
   end.
+
+(* ================================================================== *)
+(* Concurrency, part 3: requests that share one dedup key while a miss is
+   being resolved (Cache.ServeDNS, the ordinary JoinGeneration path), on the
+   real store semantics.
+
+   The ladder a request runs when it ARRIVES and the ladder a follower runs
+   again when the generation it waited on is done are the same rungs
+   (answer cache, ..., LookupFailure); only a miss on all of them lets the
+   request go on: at arrival into JoinGeneration (leader -> downstream,
+   follower -> wait), after a wake-up — no retained failure state, hence no
+   retry key — straight to the downstream handler, without a generation of
+   its own ("ordinary followers that still see a miss run the upstream chain
+   themselves").  The answer cache in front of the failure rung is the set of
+   questions answered usefully so far (as in the pipeline run). *)
+Definition akey := (name * N * N * bool)%type.
+Definition akey_of (k : qkey) : akey := (canon_name (qk_name k), qk_type k, qk_class k, qk_cd k).
+Definition akey_eqb (a b : akey) : bool :=
+  let '(n1, t1, c1, d1) := a in let '(n2, t2, c2, d2) := b in
+  name_eqb n1 n2 && (t1 =? t2)%N && (c1 =? c2)%N && Bool.eqb d1 d2.
+
+Inductive ladder := LCached | LFailure (e : entry) | LMiss.
+(* how one request of a cohort ends: from the answer cache, from the failure cache
+   (SERVFAIL + EDE 13, no upstream traffic), or by a downstream call of its own —
+   [late]: begun after the leader it had waited for returned *)
+Inductive cans := CCached | CFailure | CDown (late : bool).
+Definition cans_eqb (a b : cans) : bool :=
+  match a, b with
+  | CCached, CCached | CFailure, CFailure => true
+  | CDown x, CDown y => Bool.eqb x y
+  | _, _ => false
+  end.
+Definition is_down (a : cans) : bool := match a with CDown _ => true | _ => false end.
+
+Section Cohort.
+  Variable H : qkey -> N.
+  Variable c : cfg.
+
+  Definition ladder_of (s : store) (pos : list akey) (k : qkey) (now : Z) : ladder :=
+    if existsb (akey_eqb (akey_of k)) pos then LCached else
+    match st_lookup_failure H s k now with
+    | Some e => LFailure e
+    | None => LMiss
+    end.
+
+  (* one downstream call returns: what the resolver did to zone state on the way
+     (RecordZoneFailure before a failure, ClearZoneFailure before a useful answer), then the
+     cache's write-back *)
+  Definition zone_note := option (N * option name).
+  Definition apply_down (s : store) (pos : list akey) (k : qkey) (d : downstream) (zn : zone_note) (now : Z)
+    : store * list akey :=
+    match d with
+    | DFail _ =>
+        let s1 := match zn with
+                  | Some (qc, z) => fst (fst (st_record_zone_failure H c s qc z now))
+                  | None => s
+                  end in
+        (serve_writeback H c s1 k d now, pos)
+    | DUseful scoped =>
+        let s1 := match zn with
+                  | Some (qc, z) => st_clear_zone_failure H s qc z
+                  | None => s
+                  end in
+        (serve_writeback H c s1 k d now, if scoped then pos else akey_of k :: pos)
+    | DTruncated => (s, pos)
+    end.
+
+  Definition creq := (qkey * downstream * zone_note)%type.
+  Definition cr_key (r : creq) : qkey := fst (fst r).
+
+  Definition ans_of (late : bool) (l : ladder) : cans :=
+    match l with LCached => CCached | LFailure _ => CFailure | LMiss => CDown late end.
+
+  (* the followers that woke into a miss call the downstream handler themselves; their
+     write-backs land one after the other *)
+  Fixpoint solo_writebacks (s : store) (pos : list akey) (now : Z) (fs : list (creq * cans)) : store * list akey :=
+    match fs with
+    | [] => (s, pos)
+    | (r, CDown true) :: rest =>
+        let '(s1, pos1) := apply_down s pos (cr_key r) (snd (fst r)) (snd r) now in
+        solo_writebacks s1 pos1 now rest
+    | _ :: rest => solo_writebacks s pos now rest
+    end.
+
+  (* One group: a leader and followers of its key.  (s0,pos0) = the state every request of the
+     cohort saw when it arrived; (s,pos) = the state when this group's leader returns.
+     A request answered by the arrival ladder never joined anything.  Otherwise the leader is
+     downstream, the followers wait; when it returns they all run the ladder on the state it
+     left. *)
+  Definition cohort_group (s0 : store) (pos0 : list akey) (s : store) (pos : list akey) (now : Z)
+             (ld : creq) (fs : list creq) : store * list akey * cans * list cans :=
+    match ladder_of s0 pos0 (cr_key ld) now with
+    | LMiss =>
+        let '(s1, pos1) := apply_down s pos (cr_key ld) (snd (fst ld)) (snd ld) now in
+        let fa := map (fun f => match ladder_of s0 pos0 (cr_key f) now with
+                                | LMiss => ans_of true (ladder_of s1 pos1 (cr_key f) now)
+                                | l => ans_of false l
+                                end) fs in
+        let '(s2, pos2) := solo_writebacks s1 pos1 now (combine fs fa) in
+        (s2, pos2, CDown false, fa)
+    | l => (s, pos, ans_of false l, map (fun f => ans_of false (ladder_of s0 pos0 (cr_key f) now)) fs)
+    end.
+
+  Fixpoint cohort_run (s0 : store) (pos0 : list akey) (s : store) (pos : list akey) (now : Z)
+           (groups : list (creq * list creq)) : store * list akey * list (cans * list cans) :=
+    match groups with
+    | [] => (s, pos, [])
+    | (ld, fs) :: rest =>
+        let '(s1, pos1, la, fa) := cohort_group s0 pos0 s pos now ld fs in
+        let '(s2, pos2, out) := cohort_run s0 pos0 s1 pos1 now rest in
+        (s2, pos2, (la, fa) :: out)
+    end.
+
+  (* downstream calls a group caused *)
+  Definition group_calls (la : cans) (fa : list cans) : Z :=
+    (if is_down la then 1 else 0) + Z.of_nat (length (filter is_down fa)).
+End Cohort.
